@@ -32,6 +32,7 @@ ALPHA = {
     "REQ_a_invalid": ["REQ", "a", {"kinds": "x"}],
     "REQ_b_valid_invalid": ["REQ", "b", {"kinds": [1]}, {"ids": ["zz"]}],
     "REQ_a_nondict": ["REQ", "a", "notadict"],
+    "REQ_b_valid_emptytag": ["REQ", "b", {"#p": ["x"], "#a": []}, {"kinds": [1]}],
     "REQ_a_unhashable": ["REQ", "a", {"#e": [[1]]}],
     "REQ_5_k1": ["REQ", 5, {"kinds": [1]}],
     "REQ_null_k1": ["REQ", None, {"kinds": [1]}],
@@ -43,7 +44,7 @@ ALPHA = {
     "EVENT_e2": ["EVENT", E2],
     "DROP": DROP,
 }
-QUICK_ALPHA = ["REQ_a_k1", "REQ_b_k2", "REQ_a_k2", "REQ_c_k1", "REQ_a_invalid", "REQ_b_valid_invalid", "REQ_a_unhashable", "REQ_5_k1",
+QUICK_ALPHA = ["REQ_a_k1", "REQ_b_k2", "REQ_a_k2", "REQ_c_k1", "REQ_a_invalid", "REQ_b_valid_invalid", "REQ_b_valid_emptytag", "REQ_a_unhashable", "REQ_5_k1",
                "CLOSE_a", "CLOSE_zz", "EVENT_e1", "EVENT_e2", "DROP"]
 
 
